@@ -8,7 +8,7 @@
 //!
 //! Streams:
 //!  writer  model `writeCsv` vs `DataIO::export_csv`; oracle: an independent RFC 4180 reader gets the cells back
-//!  reader  model `importCsv` vs `DataIO::import_csv` on adversarial file texts (statement texts / error kind)
+//!  reader  model `importCsv` (= `parseCsv` + statement building) vs `DataIO::import_csv` on adversarial file texts (statement texts / error kind)
 //!  json    model `importJsonObj` vs `DataIO::import_json`
 //!  import  direct oracle through `handle_copy`: an RFC 4180 CSV / a JSON file imported into an empty
 //!          table gives exactly the file's records; nothing but values from the file reaches the table
@@ -268,6 +268,8 @@ fn reader_case(text: &str, path: &str, model: &mut model::Model, rep: &mut Repor
             let m = e.to_string();
             if m.contains("CSV file is empty") {
                 "(err empty)".to_string()
+            } else if m.starts_with("Malformed CSV") {
+                "(err malformed)".to_string()
             } else if let Some(rest) = m.strip_prefix("Row ") {
                 format!("(err count {})", rest.split(' ').next().unwrap_or("?"))
             } else {
@@ -311,7 +313,7 @@ fn json_case(objs: &[Vec<(String, serde_json::Value)>], path: &str, model: &mut 
                 return;
             }
             for (o, st) in parsed.iter().zip(stmts.iter()) {
-                let pairs = format!("({})", o.iter().map(|(k, v)| format!("({} {})", hex_str(k), hex_str(&json_value_text(v)))).collect::<Vec<_>>().join(" "));
+                let pairs = format!("({})", o.iter().map(|(k, v)| if v.is_null() { format!("({} null)", hex_str(k)) } else { format!("({} {})", hex_str(k), hex_str(&json_value_text(v))) }).collect::<Vec<_>>().join(" "));
                 let reply = model.ask(&format!("importjson {} {}", hex_str("t"), pairs));
                 rep.traces_validated += 1;
                 if unhex_str(&reply).as_deref() != Some(st.as_str()) {
@@ -326,8 +328,7 @@ fn json_case(objs: &[Vec<(String, serde_json::Value)>], path: &str, model: &mut 
                         if matches!(v, serde_json::Value::Null) { None } else { Some(t) }
                     }).collect();
                     if let Err(why) = statement_is_plain_insert(st, "t", &cols, &vals) {
-                        let null_text = o.values().any(|v| matches!(v, serde_json::Value::String(s) if s == "NULL"));
-                        rep.fail(FailKind::Oracle, if null_text { Some("C31/json-null-string") } else { None }, "generated INSERT is not a plain insert of the object's values", &format!("object: {:?}\nstatement: {}\n{}", o, st, why));
+                        rep.fail(FailKind::Oracle, None, "generated INSERT is not a plain insert of the object's values", &format!("object: {:?}\nstatement: {}\n{}", o, st, why));
                     }
                 }
             }
@@ -379,19 +380,16 @@ fn import_csv_case(c: &ImportCase, path: &str, rep: &mut Report) {
     let res = quiet(|| ex.handle_copy("s", path, CopyDirection::Import, CopyFormat::Csv));
     let got = select_all(&mut ex, "s").unwrap_or_default();
     let want = expected_rows(c);
-    // the naive reader is right exactly when no cell needs RFC 4180 treatment and the file uses no quoting
     let cells_safe = rows.iter().flatten().all(|v| naive_safe(v)) && !text.contains('"');
     rep.case(&format!("import-csv {}", hex_str(&text)), !c.records.is_empty() && !cells_safe);
     rep.count(if cells_safe { "import_csv_plain_cells" } else { "import_csv_cells_needing_rfc4180" });
     if bag(got.clone()) != bag(want.clone()) {
-        let sig = if !cells_safe { Some("C31/csv-reader-naive") } else { None };
-        rep.fail(FailKind::Oracle, sig, "an RFC 4180 CSV file is not imported as its records", &format!("table columns: {:?}\nfile:\n{}\nhandle_copy: {:?}\ntable after import: {:?}\nexpected: {:?}", c.cols, text, res.map_err(|e| e.to_string()), got, want));
+        rep.fail(FailKind::Oracle, None, "an RFC 4180 CSV file is not imported as its records", &format!("table columns: {:?}\nfile:\n{}\nhandle_copy: {:?}\ntable after import: {:?}\nexpected: {:?}", c.cols, text, res.map_err(|e| e.to_string()), got, want));
     }
     // safety: whatever happened, only values from the file are in the table
-    let allowed: std::collections::HashSet<String> = rows.iter().flatten().flat_map(|v| vec![dbg_val(&Some(v.clone())), dbg_val(&Some(v.trim().to_string()))]).chain(std::iter::once(dbg_val(&None))).collect();
-    // (cells cut at commas / line breaks by the naive reader are pieces of file values: also data)
+    let allowed: std::collections::HashSet<String> = rows.iter().flatten().map(|v| dbg_val(&Some(v.clone()))).chain(std::iter::once(dbg_val(&None))).collect();
     let foreign: Vec<&String> = got.iter().flatten().filter(|v| !allowed.contains(*v)).collect();
-    if !foreign.is_empty() && cells_safe {
+    if !foreign.is_empty() {
         rep.fail(FailKind::Oracle, None, "import put a value into the table that is not in the file", &format!("file:\n{}\nforeign values: {:?}", text, foreign));
     }
 }
@@ -417,7 +415,6 @@ fn import_json_case(c: &ImportCase, hostile_key: Option<&str>, path: &str, rep: 
     let res = quiet(|| ex.handle_copy("s", path, CopyDirection::Import, CopyFormat::Json));
     let got = select_all(&mut ex, "s").unwrap_or_default();
     let want = expected_rows(c);
-    let null_text = c.records.iter().flatten().any(|v| v.as_deref() == Some("NULL"));
     rep.case(&format!("import-json {}", text), !c.records.is_empty());
     rep.count(if hostile_key.is_some() { "import_json_hostile_key" } else { "import_json" });
     if hostile_key.is_some() && c.records.len() > 1 {
@@ -430,8 +427,7 @@ fn import_json_case(c: &ImportCase, hostile_key: Option<&str>, path: &str, rep: 
         return;
     }
     if bag(got.clone()) != bag(want.clone()) {
-        let sig = if null_text { Some("C31/json-null-string") } else { None };
-        rep.fail(FailKind::Oracle, sig, "a JSON file is not imported as its records", &format!("table columns: {:?}\nfile: {}\nhandle_copy: {:?}\ntable after import: {:?}\nexpected: {:?}", c.cols, text, res.map_err(|e| e.to_string()), got, want));
+        rep.fail(FailKind::Oracle, None, "a JSON file is not imported as its records", &format!("table columns: {:?}\nfile: {}\nhandle_copy: {:?}\ntable after import: {:?}\nexpected: {:?}", c.cols, text, res.map_err(|e| e.to_string()), got, want));
     }
 }
 
@@ -526,6 +522,7 @@ fn main() {
     }
     // a JSON null is NULL; the JSON string "NULL" should be the four letters
     json_case(&[vec![("a".into(), json!("NULL")), ("b".into(), json!(null))]], &pathj, &mut model, &mut rep);
+    json_case(&[vec![("a".into(), json!(["x'y", "'); DROP TABLE t; --", "a\\b", ") , ("])), ("b".into(), json!({"k'": "v'", "n": ["'"]}))]], &pathj, &mut model, &mut rep);
     json_case(&[vec![("a".into(), json!(1)), ("b".into(), json!(true))], vec![("a".into(), json!([1, 2])), ("b".into(), json!({"k": "v'"}))]], &pathj, &mut model, &mut rep);
     // export then import
     let vc = vec![("a".to_string(), "INTEGER".to_string()), ("b".to_string(), "VARCHAR(50)".to_string())];
@@ -566,7 +563,10 @@ fn main() {
                 (0..nk)
                     .map(|j| {
                         let key = if r.chance(1, 5) { nasty(&mut r, 2) + "k" } else { format!("k{}", j) };
-                        let v = match r.below(7) {
+                        let v = match r.below(10) {
+                            7 => json!([nasty(&mut r, 3), r.range(-5, 5), nasty(&mut r, 3)]),
+                            8 => json!({ "k": nasty(&mut r, 3), "n": [nasty(&mut r, 2)] }),
+                            9 => json!([{ "q": "it's", "b": "a\\b", "c": "-- ) , '" }]),
                             0 => json!(null),
                             1 => json!(r.range(-1000, 1000)),
                             2 => json!(r.chance(1, 2)),
